@@ -127,6 +127,18 @@ CORP = {
         H([C("C0", api="frozen", frozen=None, slots=False, fields=[F("x")]),
            C("C1", api="define", frozen=False, slots=False, cache_hash=True, unsafe_hash=True, fields=[F("y")])]),
         {"pos": ["t1", "t2"], "kw": []}, ["hash", {"evolve": {"changes": [["y", "n1"]]}}, {"pickle": {"proto": 4}}], "valid"),
+    # the VALUE dimension: mutable / unhashable field values, the very object, an equal copy, real in-place operators
+    "mutable-values-same-equal-inplace-dict-class": (
+        H([C("C0", frozen=True, slots=False, fields=[F("x"), F("y"), F("z")])], tail=[{"name": "T0", "plain_slots": False, "klist": True}]),
+        {"pos": ["L.t1", "D.t2", "S.t3"], "kw": []},
+        [{"set": {"name": "x", "v": "@same"}}, {"aug": {"name": "x", "v": "+a"}}, {"aug": {"name": "y", "v": "+a"}}, {"aug": {"name": "z", "v": "+a"}},
+         {"aug": {"name": "x", "v": ""}}, {"set": {"name": "y", "v": "@equal"}}, {"set": {"name": "z", "v": "@same"}}, {"set": {"name": "klist", "v": "@same"}},
+         {"del": {"name": "klist"}}, "copy", "deepcopy", {"pickle": {"proto": 2}}, {"evolve": {"changes": [["y", "n1"]]}}], "valid"),
+    "mutable-values-inplace-slotted-define-via-ancestor": (
+        H([C("C0", api="frozen", frozen=None, fields=[F("x")]), C("C1", api="define", frozen=False, fields=[F("y", default="value"), F("w", kw_only=True)])]),
+        {"pos": ["L.t1"], "kw": [["w", "D.t2"]]},
+        [{"aug": {"name": "x", "v": "+a"}}, {"aug": {"name": "w", "v": "+a"}}, {"set": {"name": "w", "v": "@same"}}, {"set": {"name": "x", "v": "@equal"}},
+         {"aug": {"name": "y", "v": ""}}, "copy"], "valid"),
     "dict-below-plain-below-slots-make-class": (
         H([C("C0", frozen=True, slots=True, collect_by_mro=True, fields=[F("x")]), P("P1"),
            C("C2", api="make_class", frozen=False, slots=False, collect_by_mro=True, fields=[F("y")])], tail=[{"name": "T0", "plain_slots": False}]),
